@@ -481,16 +481,17 @@ theorem parse_render_nolabel (t : RefTable) (h : t.fitsRecords = true) (hne : t.
   · intro r hr c hc d hd
     exact parse_render_cell c d ((hrows r hr).1 c hc) hd
 
-/-- The whole reader on a NOTITLE + NOLABEL file: when the first column is a right-justified number
-    (as in every $TABLE output) no record is mistaken for a repeated header line either, so
-    `NONMEMTableFile(path, notitle=True, nolabel=True)` holds one table with all records. -/
-theorem nolabel_file_all_records (k : Kind) (t : RefTable) (h : t.fitsRecords = true) (hne : t.rows ≠ [])
-    (c : Col) (cs : List Col) (hc : t.cols = c :: cs) (hal : c.align = .right)
-    (hnum : ∀ r ∈ t.rows, ∀ cell cells, r = cell :: cells → ∀ s, cell ≠ .label s) :
-    parseFile k true true (renderRecords t)
-      = .ok [⟨none, .generic, ⟨positions t.cols.length,
-          t.rows.map (fun r => r.map (fun c => some (renderCell c)))⟩⟩] := by
-  have hfit := h
+/-- What a $TABLE written without labels looks like: at least one record, every record fits, the
+    first column is a right-justified number (as in every $TABLE output). -/
+def NolabelOk (t : RefTable) : Prop :=
+  t.fitsRecords = true ∧ t.rows ≠ [] ∧ ∃ c cs, t.cols = c :: cs ∧ c.align = .right ∧
+    ∀ r ∈ t.rows, ∀ cell cells, r = cell :: cells → ∀ s, cell ≠ .label s
+
+/-- No record of such a table is mistaken for a repeated header line, or for a `TABLE NO.` line. -/
+theorem nolabel_records_kept (t : RefTable) (h : NolabelOk t) :
+    dropRepeatedHeaders (renderRecords t) = renderRecords t
+      ∧ ∀ l ∈ renderRecords t, isTitle l = false := by
+  obtain ⟨hfit, _, c, cs, hc, hal, hnum⟩ := h
   simp only [RefTable.fitsRecords, Bool.and_eq_true, List.all_eq_true] at hfit
   have hkeep : ∀ l ∈ renderRecords t, looksLikeHeader l = false := by
     intro l hl
@@ -505,8 +506,8 @@ theorem nolabel_file_all_records (k : Kind) (t : RefTable) (h : t.fitsRecords = 
       simp only [fitsField, hal, Bool.and_eq_true, decide_eq_true_eq] at hf
       simp only [List.map_cons, renderRow, renderField, hal]
       exact data_line_not_header c.width cell _ (hnum _ hr cell cells rfl) hf.2
-  have hdrop : dropRepeatedHeaders (renderRecords t) = renderRecords t := by
-    cases hl : renderRecords t with
+  constructor
+  · cases hl : renderRecords t with
     | nil => rfl
     | cons a rest =>
       simp only [dropRepeatedHeaders]
@@ -515,6 +516,46 @@ theorem nolabel_file_all_records (k : Kind) (t : RefTable) (h : t.fitsRecords = 
       intro x hx
       have := hkeep x (by rw [hl]; simp [hx])
       simp [this]
-  simp only [parseFile, if_true, hdrop, (parse_render_nolabel t h hne).1]
+  · intro l hl
+    obtain ⟨r, hr, rfl⟩ := List.mem_map.mp hl
+    rcases renderRow_wsStart _ _ (hfit.2 r hr).2 with h0 | ⟨r', h0⟩
+    · rw [h0]; decide
+    · rw [h0]; simp [isTitle, startsWith, tableNoPrefix_eq, List.isPrefixOf]
+
+/-- The whole reader on a NOTITLE + NOLABEL (NOHEADER) file:
+    `NONMEMTableFile(path, notitle=True, nolabel=True)` holds one table with all records, columns
+    labelled by position. -/
+theorem nolabel_file_all_records (k : Kind) (t : RefTable) (h : NolabelOk t) :
+    parseFile k true true (renderRecords t)
+      = .ok [⟨none, .generic, ⟨positions t.cols.length,
+          t.rows.map (fun r => r.map (fun c => some (renderCell c)))⟩⟩] := by
+  have hdrop := (nolabel_records_kept t h).1
+  simp only [parseFile, if_true, hdrop, (parse_render_nolabel t h.1 h.2.1).1]
+
+/-- NOLABEL with title lines (`notitle=False, nolabel=True`), any number of tables: one table per
+    `TABLE NO.` chunk, each with its own title metadata, all its records, position labels. -/
+theorem nolabel_titled_file_all_records (ts : List (Str × Meta × RefTable)) (hne : ts ≠ [])
+    (htitle : ∀ p ∈ ts, isTitle p.1 = true ∧ parseTitleLine p.1 = .ok p.2.1)
+    (hok : ∀ p ∈ ts, NolabelOk p.2.2) :
+    parseFile .generic false true (ts.map (fun p => p.1 :: renderRecords p.2.2)).flatten
+      = .ok (ts.map (fun p => ⟨some p.2.1, .generic, ⟨positions p.2.2.cols.length,
+          p.2.2.rows.map (fun r => r.map (fun c => some (renderCell c)))⟩⟩)) := by
+  have hsplit : splitTables (ts.map (fun p => p.1 :: renderRecords p.2.2)).flatten
+      = ts.map (fun p => p.1 :: renderRecords p.2.2) := by
+    have := multi_table_split (ts.map (fun p => (p.1, renderRecords p.2.2))) (by simpa using hne)
+      (by intro c hc
+          obtain ⟨p, hp, rfl⟩ := List.mem_map.mp hc
+          exact (htitle p hp).1)
+      (by intro c hc l hl
+          obtain ⟨p, hp, rfl⟩ := List.mem_map.mp hc
+          exact (nolabel_records_kept _ (hok p hp)).2 l hl)
+    rw [List.map_map] at this
+    exact this
+  simp only [parseFile, Bool.false_eq_true, if_false, hsplit]
+  apply mapM_map_ok
+  intro p hp
+  have hk := hok p hp
+  simp only [parseChunk, if_true, (nolabel_records_kept _ hk).1, (parse_render_nolabel _ hk.1 hk.2.1).1,
+    (htitle p hp).2]
 
 end Pharmpy.C20
